@@ -196,6 +196,86 @@ impl Part for EncodeSide {
     }
 }
 
+
+// ------------------------------------------------------------------------ the same conversions in other surroundings
+/// The conversion of a time field must not depend on what the packet's other fields hold: the packet is obtained by decoding
+/// a generated frame of its kind (every other field drawn freely), the duration is set on it, and the encoded frame must
+/// differ from the frame it was decoded from in the bytes of the time field only, which hold floor(d / resolution) - or the
+/// packet is refused because the duration does not fit.
+#[derive(Clone, Debug)]
+pub struct SurroundCase {
+    pub dur: DurCase,
+    pub compressed: bool,
+    pub tape: Vec<u8>,
+}
+
+pub struct InSurroundings;
+impl Part for InSurroundings {
+    type Case = SurroundCase;
+    fn name(&self) -> &'static str {
+        "durations-in-other-surroundings"
+    }
+    fn check(&self, c: &SurroundCase, ev: &mut Local) -> Result<(), Fail> {
+        let (variant, path, width, scale, off) = DURATION_FIELDS[c.dur.field];
+        let name = format!("{variant}.{path}");
+        let d = Duration::new(c.dur.secs, c.dur.nanos % 1_000_000_000);
+        let mode = if c.compressed { Mode::Compressed } else { Mode::Uncompressed };
+        let mut frame = image::from_tape(spec().packet(variant).unwrap(), &mode, &c.tape, false).image;
+        if variant == "Small" {
+            frame[3] = small_subtype(path);
+        }
+        let Ok(base) = decode_one(&frame, &mode) else {
+            ev.class("surroundings not decodable: skipped");
+            return Ok(());
+        };
+        // the surroundings as the library itself writes them (with whatever the time field held before)
+        let Ok(before) = encode_one(&base, &mode) else {
+            ev.class("surroundings not encodable: skipped");
+            return Ok(());
+        };
+        let p = build::duration_packet_in(base, path, d).ok_or_else(|| Fail::new("harness:builder", name.clone()))?;
+        let units: u128 = d.as_millis() / scale as u128;
+        let max: u128 = if width == 2 { 0xffff } else { 0xffff_ffff };
+        let fits = units <= max;
+        match encode_one(&p, &mode) {
+            Ok(after) => {
+                ensure!(fits, format!("c15:out-of-range-duration-silently-encoded:{name}"), "{name} ({}): {d:?} = {units} units does not fit {width} bytes, but was encoded as {}; surroundings {}", mode_name(&mode), read_wire(&after, off, width), hex(&before[..before.len().min(48)]));
+                let w = read_wire(&after, off, width) as u128;
+                ensure!(
+                    w == units,
+                    format!("c15:duration-not-floored-to-resolution:{name}"),
+                    "{name} ({}): {d:?} encoded as {w} units of {scale} ms, expected floor = {units}; the packet's other fields: {}",
+                    mode_name(&mode),
+                    hex(&before[..before.len().min(48)])
+                );
+                let mut expect = before.clone();
+                expect[off..off + width].copy_from_slice(&(units as u64).to_le_bytes()[..width]);
+                ensure!(after == expect, format!("c15:setting-a-duration-changes-other-bytes:{name}"), "{name} ({}): setting {d:?} turned {} into {}", mode_name(&mode), hex(&before[..before.len().min(64)]), hex(&after[..after.len().min(64)]));
+                ev.class("encoded");
+            },
+            Err(e) => {
+                ensure!(!fits, format!("c15:in-range-duration-refused:{name}"), "{name} ({}): {d:?} = {units} units fits but was refused: {e}; the packet's other fields: {}", mode_name(&mode), hex(&before[..before.len().min(48)]));
+                ev.class("refused-out-of-range");
+            },
+        }
+        if before.iter().enumerate().filter(|(i, b)| **b != 0 && *i > 3 && !(off..off + width).contains(i)).count() > 0 {
+            ev.nontrivial(&(c.dur.field, c.dur.secs, c.dur.nanos, &c.tape));
+        }
+        ev.class(&name);
+        Ok(())
+    }
+    fn to_json(&self, c: &SurroundCase) -> Value {
+        json!({"dur": EncodeSide.to_json(&c.dur), "compressed": c.compressed, "tape": hex(&c.tape)})
+    }
+    fn from_json(&self, v: &Value) -> Option<SurroundCase> {
+        Some(SurroundCase { dur: EncodeSide.from_json(v.get("dur")?)?, compressed: v.get("compressed")?.as_bool()?, tape: unhex(v.get("tape")?.as_str()?)? })
+    }
+}
+
+fn surround_strategy() -> impl Strategy<Value = SurroundCase> {
+    ((any::<u8>(), duration_strategy(), wrap_strategy()).prop_map(|(k, a, b)| if k % 4 == 0 { b } else { a }), any::<bool>(), proptest::collection::vec(any::<u8>(), 0..200)).prop_map(|(dur, compressed, tape)| SurroundCase { dur, compressed, tape })
+}
+
 /// durations that a narrowing conversion would wrap into the valid range: (k * 2^W + r) counted in nanoseconds, microseconds,
 /// milliseconds, field units or seconds, for the integer widths W a conversion might pass through
 fn wrap_strategy() -> impl Strategy<Value = DurCase> {
@@ -344,7 +424,7 @@ impl Part for RaceLength {
 }
 
 pub fn parts() -> Vec<Box<dyn DynPart>> {
-    vec![Box::new(DecodeSide), Box::new(EncodeSide), Box::new(RaceLength)]
+    vec![Box::new(DecodeSide), Box::new(EncodeSide), Box::new(InSurroundings), Box::new(RaceLength)]
 }
 
 pub fn run(run: &mut Run) {
@@ -436,6 +516,9 @@ pub fn run(run: &mut Run) {
     // encode side: values that a narrowing step (u128 -> u64 -> u32 -> u16 ...) would wrap into the valid range
     let n = run.budget(150_000, 5_000_000);
     run.prop(&EncodeSide, wrap_strategy(), n);
+    // encode side: the same, with every other field of the packet drawn freely
+    let n = run.budget(150_000, 5_000_000);
+    run.prop(&InSurroundings, surround_strategy(), n);
     // race length
     let mut rl = vec![];
     for w in 0..RACELAPS_FIELDS.len() {
